@@ -24,6 +24,7 @@ import (
 	"github.com/trustbloc/sidetree-go/pkg/vdr/sidetreelongform/dochandler/protocolversion/clientregistry"
 	vcommon "github.com/trustbloc/sidetree-go/pkg/vdr/sidetreelongform/dochandler/protocolversion/versions/common"
 	"github.com/trustbloc/sidetree-go/pkg/versions/1_0/doctransformer/didtransformer"
+	"github.com/trustbloc/sidetree-go/pkg/versions/1_0/operationparser"
 
 	"verif/sim/core"
 	"verif/sim/ref"
@@ -51,6 +52,7 @@ type concShared struct {
 	handler   *dochandler.DocumentHandler
 	vdr       *sidetreelongform.VDR
 	transform *didtransformer.Transformer
+	ingress   *operationparser.Parser // non-batch parsing (the world's batch-side parser refuses every time validation)
 	nsp       *nsprovider.Provider
 	reg       *clientregistry.Registry
 	verp      *verprovider.ClientVersionProvider
@@ -78,6 +80,7 @@ func (w *World) newConcShared(stepSeed string) *concShared {
 	if c.vdr, err = sidetreelongform.New(); err != nil {
 		panic("harness: " + err.Error())
 	}
+	c.ingress = operationparser.New(w.Proto)
 	c.transform = didtransformer.New(didtransformer.WithBase(true), didtransformer.WithIncludePublishedOperations(true))
 	c.nsp = nsprovider.New()
 	c.reg = clientregistry.New()
@@ -138,7 +141,22 @@ func (w *World) newConcShared(stepSeed string) *concShared {
 			"purposes": []any{"authentication"}, "publicKeyJwk": docJWK(w.Pool.Get(i))}}}}
 		delta := map[string]any{"updateCommitment": ref.Commitment(ref.SHA256, w.Pool.Get(i+1).RefJWK("")), "patches": lf}
 		sd := map[string]any{"deltaHash": ref.ModelHash(ref.SHA256, delta), "recoveryCommitment": ref.Commitment(ref.SHA256, w.Pool.Get(i+2).RefJWK(""))}
-		c.longDIDs = append(c.longDIDs, "did:ion:"+ref.ModelHash(ref.SHA256, sd)+":"+ref.B64(ref.JCS(map[string]any{"delta": delta, "suffixData": sd})))
+		short := "did:ion:" + ref.ModelHash(ref.SHA256, sd)
+		state := ref.B64(ref.JCS(map[string]any{"delta": delta, "suffixData": sd}))
+		// the genuine DID and two siblings that share everything up to the last colon: the initial state of the previous DID, and the
+		// genuine initial state with one character changed (indices 3i, 3i+1, 3i+2: whatever is decided per DID prefix is decided wrongly)
+		otherState := state[:len(state)-2] + "AA"
+		if len(c.longDIDs) > 0 {
+			prev := c.longDIDs[len(c.longDIDs)-3]
+			otherState = prev[strings.LastIndex(prev, ":")+1:]
+		}
+		changed := []byte(state)
+		if changed[len(changed)/2] == 'A' {
+			changed[len(changed)/2] = 'B'
+		} else {
+			changed[len(changed)/2] = 'A'
+		}
+		c.longDIDs = append(c.longDIDs, short+":"+state, short+":"+otherState, short+":"+string(changed))
 		c.createLF = append(c.createLF, ref.JCS(map[string]any{"type": "create", "delta": delta, "suffixData": sd}))
 		c.didDocs = append(c.didDocs, map[string]any{"keys": []any{map[string]any{"id": fmt.Sprintf("k%d", i), "type": "JsonWebKey2020", "key": i, "purposes": []any{"authentication", "assertionMethod"}},
 			map[string]any{"id": "second", "type": "JsonWebKey2020", "key": i + 3, "purposes": []any{"keyAgreement"}}}, "upd": i + 5, "rec": i + 16})
@@ -189,7 +207,7 @@ func (c *concShared) run(call concCall) (out string) {
 	switch call.Comp {
 	case "parse":
 		b, _ := pick(c.requests, call.I)
-		op, err := w.Parser.Parse(ns, b)
+		op, err := c.ingress.Parse(ns, b)
 		if err != nil {
 			return "error"
 		}
@@ -440,6 +458,9 @@ func (w *World) execConcurrent() {
 		w.T.Fault("lock_contention")
 	}
 	w.T.Fault("preemptions")
+	if s.chanBlocks > 0 {
+		w.T.Probe("task_parked_on_channel")
+	}
 	if s.gwSwitches > 0 {
 		w.T.Probe("left_writer_at_global_write")
 	}
@@ -531,6 +552,20 @@ func GenConcurrent(seed uint64, cold bool, pool *Pool) *Plan {
 			}
 		}
 		p.Steps = append(p.Steps, Step{Op: STask, Node: t, Args: map[string]any{"calls": calls}})
+	}
+	// siblings of one long-form DID resolved by different tasks at the same time
+	if nt >= 2 {
+		k := r.Intn(10)
+		for t, comp := range []string{"resolve", core.Pick(r, []string{"resolve", "vdr-read"})} {
+			st := &p.Steps[len(p.Steps)-nt+t]
+			calls := st.Args["calls"].([]any)
+			at := r.Intn(2)
+			if at > len(calls) {
+				at = len(calls)
+			}
+			calls = append(calls[:at:at], append([]any{map[string]any{"c": comp, "i": 3*k + t + r.Intn(2)*t}}, calls[at:]...)...)
+			st.Args["calls"] = calls
+		}
 	}
 	// every DID's signed operation is applied (signature verified) at least once per run, spread over the tasks
 	for i := 0; i < 10; i++ {
